@@ -24,6 +24,7 @@ type Env struct {
 	noHeap  bool // inside a spec function body
 	specPkg string
 	reveal  map[string]bool // opaque predicates expanded in this evaluation
+	retIdx  int             // postconditions: ordinal of the return site being checked (-1 elsewhere)
 }
 
 type specErr string
@@ -607,6 +608,13 @@ func (env *Env) call(x *SCall) Value {
 			env.fail("asIface: local address")
 		}
 		return Value{Typ: types.NewInterfaceType(nil, nil), L: []Term{env.enc.typeID(a.Typ), a.L[0]}}
+	case "atret":
+		// atret(k): this postcondition is being checked at return site k (source order)
+		k, ok := constInt(env.evalI(x.Args[0]))
+		if !ok {
+			env.fail("atret: constant expected")
+		}
+		return boolVal(B(env.retIdx == int(k)))
 	case "ifval":
 		// ifval(i): the dynamic value (reference) held by the interface value i
 		a := env.eval(x.Args[0])
